@@ -27,8 +27,8 @@ def model_line(rows, plugins=False):
     return core.line("cid.read", "1" if plugins else "0", ",".join(enc(k) for k in known) or "~", rows_str(rows))
 
 
-def impl_canonical(rows, plugins=False):
-    """canonical outcome of Cid().read on the real code"""
+def impl_canonical(rows, plugins=False, via_text=False):
+    """canonical outcome of Cid().read on the real code; `via_text`: the rows stored as comma separated text first"""
     from cutplace import errors, interface
     import props.c11 as c11
 
@@ -36,7 +36,14 @@ def impl_canonical(rows, plugins=False):
         import plugin_types  # noqa
     cid = interface.Cid()
     try:
-        cid.read("generated-cid", [list(r) for r in rows])
+        if via_text:
+            import csv
+            import io
+            out = io.StringIO()
+            csv.writer(out, lineterminator="\n").writerows([list(r) for r in rows])
+            cid = interface.create_cid_from_string(out.getvalue())
+        else:
+            cid.read("generated-cid", [list(r) for r in rows])
     except errors.CutplaceError as error:
         tag = core.classify_exception(error)
         loc = error.location
@@ -301,6 +308,8 @@ def defects(rnd, rows, info):
         yield "bad-empty-mark", with_row(i, mod(3, "Y")), i
         yield "unknown-type", with_row(i, mod(5, "NoSuchType")), i
         yield "broken-type", with_row(i, mod(5, "Te xt")), i
+        yield "untokenizable-type", with_row(i, mod(5, "Te'xt")), i
+        yield "untokenizable-length", with_row(i, mod(4, "'1")), i
         yield "malformed-length", with_row(i, mod(4, "3...1")), i
         yield "negative-length", with_row(i, mod(4, "-2") if fmt == "fixed" else mod(4, "-2...")), i
         if fmt == "fixed":
@@ -343,6 +352,9 @@ def defects(rnd, rows, info):
     yield "check-duplicate-field", inserted(end, ["C", "twice", "IsUnique", "%s, %s" % (first_field, first_field)]), end
     yield "check-empty-rule", inserted(end, ["C", "no rule", "IsUnique", ""]), end
     yield "check-malformed-rule", inserted(end, ["C", "malformed", "IsUnique", "%s %s" % (first_field, first_field)]), end
+    yield "check-untokenizable-rule", inserted(end, ["C", "untokenizable", "IsUnique", "%s, 'b" % first_field]), end
+    yield "check-untokenizable-count-rule", inserted(end, ["C", "untokenizable count", "DistinctCount", "%s < 'b" % first_field]), end
+    yield "check-untokenizable-type", inserted(end, ["C", "untokenizable type", "Is'Unique", first_field]), end
     yield "distinct-unknown-field", inserted(end, ["C", "distinct", "DistinctCount", "no_such_field < 3"]), end
     yield "distinct-bad-expression", inserted(end, ["C", "distinct", "DistinctCount", "%s <" % first_field]), end
     for i in crows[1:]:
